@@ -34,6 +34,11 @@ Strings are `List Char`, one `Char` per byte.
   `Access-Control-Allow-Methods` / `-Allow-Headers` (configured list or echo of the request's
   `Access-Control-Request-Headers`) / `-Max-Age` on preflights; `CORS()` = `CORSWithConfig(DefaultCORSConfig)`,
   whose non-empty AllowMethods count as custom.  `serveFull_core` ties it to `serve`.
+* round 8: `DefaultCORSConfig` is a package VARIABLE.  `Cfg.dfltOrigins` / `Full.dfltMethods` hold what the
+  constructor found in it (`["*"]` / the six methods unless the application assigned something else); `setup` runs
+  a script of assignments and constructor calls over the variable's current value (`Defaults`), `Call.build` is the
+  instance a call yields: `CORS()` takes every field of the value, `CORSWithConfig` the Skipper, the allow-list and
+  the method list where its argument leaves them empty.  Both lists empty: nothing is allowed.
 -/
 namespace C11
 
@@ -111,6 +116,9 @@ structure Cfg where
   origins : List Str       -- AllowOrigins as configured
   creds : Bool             -- AllowCredentials
   unsafeWild : Bool        -- UnsafeWildcardOriginWithAllowCredentials
+  /-- round 8: `DefaultCORSConfig.AllowOrigins` as it was when the constructor ran (the package variable can be
+      assigned by the application); `["*"]` unless it was changed -/
+  dfltOrigins : List Str := [['*']]
 deriving Repr, Inhabited
 
 structure Req where
@@ -128,8 +136,9 @@ deriving DecidableEq, Repr, Inhabited
 
 def star : Str := ['*']
 
-/-- `if len(config.AllowOrigins) == 0 { config.AllowOrigins = DefaultCORSConfig.AllowOrigins }` -/
-def effOrigins (cfg : Cfg) : List Str := if cfg.origins = [] then [star] else cfg.origins
+/-- `if len(config.AllowOrigins) == 0 { config.AllowOrigins = DefaultCORSConfig.AllowOrigins }` — the list in force;
+    it is empty (nothing is allowed) when both the configured and the package variable's list are empty -/
+def effOrigins (cfg : Cfg) : List Str := if cfg.origins = [] then cfg.dfltOrigins else cfg.origins
 
 /-- `for _, o := range config.AllowOrigins { … break }`; result `[]` = allowOrigin stays "" -/
 def allowLoop (cfg : Cfg) (origin : Str) : List Str → Str
@@ -206,6 +215,9 @@ inductive FRes where
   | err (status : Nat)      -- the error it returned, as the status echo's error handler gives it
 deriving DecidableEq, Repr, Inhabited
 
+def defaultMethods : List Str :=
+  ["GET".toList, "HEAD".toList, "PUT".toList, "PATCH".toList, "POST".toList, "DELETE".toList]
+
 structure Full where
   core : Cfg
   func : Option (Str → FRes)   -- AllowOriginFunc
@@ -213,6 +225,8 @@ structure Full where
   headers : List Str           -- AllowHeaders
   expose : List Str            -- ExposeHeaders
   maxAge : Int                 -- MaxAge
+  /-- round 8: `DefaultCORSConfig.AllowMethods` as it was when the constructor ran -/
+  dfltMethods : List Str := defaultMethods
 
 structure FReq where
   core : Req
@@ -235,11 +249,8 @@ def joinComma : List Str → Str
   | [a] => a
   | a :: b :: r => a ++ ',' :: joinComma (b :: r)
 
-def defaultMethods : List Str :=
-  ["GET".toList, "HEAD".toList, "PUT".toList, "PATCH".toList, "POST".toList, "DELETE".toList]
-
 /-- `DefaultCORSConfig` as `CORS()` passes it on: its AllowMethods are set, hence "custom" -/
-def defaultFull : Full := ⟨⟨[star], false, false⟩, none, defaultMethods, [], [], 0⟩
+def defaultFull : Full := ⟨⟨[star], false, false, [star]⟩, none, defaultMethods, [], [], 0, defaultMethods⟩
 
 /-- `maxAge := "0"; if config.MaxAge > 0 { maxAge = strconv.Itoa(config.MaxAge) }` -/
 def maxAgeStr (n : Int) : Str := if n > 0 then (toString n.toNat).toList else ['0']
@@ -281,7 +292,7 @@ def serveFull (fc : Full) (fr : FReq) : FObs :=
         else
           ⟨⟨204, false, some a, fc.core.creds, varyOrigin :: varyPreflight⟩, allowHdr,
             some (if fc.methods = [] ∧ rAllow ≠ [] then rAllow
-                  else joinComma (if fc.methods = [] then defaultMethods else fc.methods)),
+                  else joinComma (if fc.methods = [] then fc.dfltMethods else fc.methods)),
             (if joinComma fc.headers ≠ [] then some (joinComma fc.headers)
              else if fr.reqHeaders ≠ [] then some fr.reqHeaders else none),
             none,
@@ -349,6 +360,76 @@ def serveEntry (en : Entry) (fr : FReq) (ls : List Layer) : FObs :=
   | some st => noHeaders ⟨st, o.core.ran, en.acao, en.acac, en.vary⟩ none
   | none => mergeObs (entryObs en) o
 
+/-! ## the package variable `DefaultCORSConfig` and the order of the set-up calls (round 8)
+
+`DefaultCORSConfig` is an exported package variable; assigning it (or single fields of it) before calling
+`CORS()` is the documented way of changing the defaults.  Both constructors read it WHEN THEY ARE CALLED:
+
+* `CORS()` is `CORSWithConfig(DefaultCORSConfig)` — every field of the current value;
+* `CORSWithConfig(config)` takes `Skipper`, `AllowOrigins` and `AllowMethods` from the current value where `config`
+  leaves them nil / empty (taken over AllowMethods do not count as custom).
+
+The value is copied into the closure: an assignment after the call does not reach an instance already built, and a
+constructor call leaves nothing behind that a later call could see.  The set-up of an application is therefore a
+script of assignments and constructor calls over ONE piece of state, the current value of the variable (`setup`). -/
+
+/-- a value of `DefaultCORSConfig`; `skip` is what its Skipper answers for the request at hand -/
+structure Defaults where
+  origins : List Str
+  creds : Bool
+  unsafeWild : Bool
+  func : Option (Str → FRes)
+  methods : List Str
+  headers : List Str
+  expose : List Str
+  maxAge : Int
+  skip : Bool
+
+/-- the value the package is shipped with -/
+def pristine : Defaults := ⟨[star], false, false, none, defaultMethods, [], [], 0, false⟩
+
+/-- `CORSWithConfig(config)` called while the variable holds `d`: the closure's configuration -/
+def withConfig (d : Defaults) (fc : Full) : Full :=
+  { fc with core := { fc.core with dfltOrigins := d.origins }, dfltMethods := d.methods }
+
+/-- the variable's value as a `CORSConfig` argument -/
+def Defaults.asConfig (d : Defaults) : Full :=
+  ⟨⟨d.origins, d.creds, d.unsafeWild, d.origins⟩, d.func, d.methods, d.headers, d.expose, d.maxAge, d.methods⟩
+
+/-- `CORS()` called while the variable holds `d` -/
+def corsDefault (d : Defaults) : Full := withConfig d d.asConfig
+
+/-- a constructor call: `ctor` 1 = `CORS()` (the argument is ignored), otherwise `CORSWithConfig(cfg)`;
+    `ownSkip` = `none` when `cfg.Skipper` is nil, else what the configured Skipper answers for the request;
+    `routerAllow`: what the instance will find in the context -/
+structure Call where
+  ctor : Nat
+  cfg : Full
+  ownSkip : Option Bool
+  routerAllow : Str
+
+/-- the instance a constructor call yields while the variable holds `d` -/
+def Call.build (d : Defaults) (k : Call) : Layer :=
+  if k.ctor = 1 then ⟨corsDefault d, d.skip, k.routerAllow⟩
+  else ⟨withConfig d k.cfg, k.ownSkip.getD d.skip, k.routerAllow⟩
+
+inductive SetupOp where
+  | assign (d : Defaults)             -- `middleware.DefaultCORSConfig = …`
+  | call (keep : Bool) (k : Call)     -- a constructor call; `keep`: the instance is put on the request's path
+                                      -- (in call order, outermost first), otherwise it is used elsewhere / dropped
+
+/-- the value of the variable after a script -/
+def current : Defaults → List SetupOp → Defaults
+  | d, [] => d
+  | _, .assign d' :: r => current d' r
+  | d, .call _ _ :: r => current d r
+
+/-- the instances on the request's path after a script that starts with the variable holding `d` -/
+def setup : Defaults → List SetupOp → List Layer
+  | _, [] => []
+  | _, .assign d' :: r => setup d' r
+  | d, .call keep k :: r => if keep then k.build d :: setup d r else setup d r
+
 /-! ## wire -/
 open Wire
 
@@ -367,10 +448,9 @@ def pFunc : P (Option (Str → FRes)) := do
   let n ← nat
   pure (if n = 0 then none else some (fun _ => if n = 1 then .allow else if n = 2 then .deny else .err n))
 
-/-- configuration tokens of one instance: `ctor creds unsafe n allow* func n methods* n headers* n expose* maxAge`
-    (`ctor` 1 = `CORS()`: the configuration tokens are ignored, the default configuration is used) -/
+/-- configuration tokens: `creds unsafe n allow* func n methods* n headers* n expose* maxAge` (as written by the
+    application: the defaults are not filled in) -/
 def pFull : P Full := do
-  let ctor ← nat
   let creds ← bool
   let uw ← bool
   let allow ← list str
@@ -379,14 +459,34 @@ def pFull : P Full := do
   let headers ← list str
   let expose ← list str
   let maxAge ← int
-  pure (if ctor = 1 then defaultFull else ⟨⟨allow, creds, uw⟩, func, methods, headers, expose, maxAge⟩)
+  pure ⟨⟨allow, creds, uw, [star]⟩, func, methods, headers, expose, maxAge, defaultMethods⟩
 
-/-- one instance: `skip routerAllow` + configuration tokens -/
-def pLayer : P Layer := do
+/-- a value of the package variable: `skip` + configuration tokens -/
+def pDefaults : P Defaults := do
+  let skip ← bool
+  let fc ← pFull
+  pure ⟨fc.core.origins, fc.core.creds, fc.core.unsafeWild, fc.func, fc.methods, fc.headers, fc.expose, fc.maxAge, skip⟩
+
+/-- a constructor call: `ownSkipper skip routerAllow ctor` + configuration tokens (`ctor` 1 = `CORS()`: the
+    configuration tokens are ignored); `ownSkipper` 0 = `config.Skipper` is nil -/
+def pCall : P Call := do
+  let own ← bool
   let skip ← bool
   let rAllow ← str
+  let ctor ← nat
   let fc ← pFull
-  pure ⟨fc, skip, rAllow⟩
+  pure ⟨ctor, fc, if own then some skip else none, rAllow⟩
+
+/-- one step of the set-up: `0` + a value of the variable (assignment) or `1 keep` + a constructor call -/
+def pSetupOp : P SetupOp := do
+  let kind ← nat
+  if kind = 0 then
+    let d ← pDefaults
+    pure (.assign d)
+  else
+    let keep ← bool
+    let k ← pCall
+    pure (.call keep k)
 
 /-- round 6: the request as the middleware reads it off the whole request head.  Only three things
     are consulted: whether the method is exactly `OPTIONS`, the values of `Origin` (the first one
@@ -413,16 +513,17 @@ def pEntry : P Entry := do
   pure ⟨if c = 0 then none else some c, acao, acac, vary⟩
 
 /-- line: `committed (0 | 1 acao) acac nVary vary*` (response state at entry; committed 0 = not started), then
-    `method nHeaders (name value)* nLayers layer*` (layers outermost first, at least one)
+    `method nHeaders (name value)* nOps op*` (the set-up script, starting from the pristine `DefaultCORSConfig`;
+    the kept constructor calls are the instances on the path, outermost first, at least one)
     →  `status ran (0 | 1 acao) acac k vary* (0|1 allow) (0|1 acam) (0|1 acah) (0|1 aceh) (0|1 maxage)` -/
 def runLine (line : String) : String :=
   match parseLine (do
       let en ← pEntry
       let method ← str
       let headers ← list pPair
-      let layers ← list pLayer
-      pure (en, reqOf method headers, layers)) line with
+      let ops ← list pSetupOp
+      pure (en, reqOf method headers, ops)) line with
   | none => "bad-op"
-  | some (en, fr, layers) => encFObs (serveEntry en fr layers)
+  | some (en, fr, ops) => encFObs (serveEntry en fr (setup pristine ops))
 
 end C11
